@@ -147,8 +147,12 @@ Num txs: {"unknown" if self.txs is None else len(self.txs)}
         h256 = hash256(self.serialize())
         # interpret this hash as a little-endian number
         proof = little_endian_to_int(h256)
-        # return whether this integer is less than the target
-        return proof < self.target()
+        # a compact target with the sign bit set, or a zero target, is never satisfied
+        target = self.target()
+        if self.bits[-2] & 0x80 or target == 0:
+            return False
+        # return whether this integer is less than or equal to the target
+        return proof <= target
 
     def validate_merkle_root(self):
         """Gets the merkle root of the tx_hashes and checks that it's
